@@ -194,7 +194,9 @@ def props_exec4(E, res):
 
 def build(tier):
     from . import evm_guards
-    return evm_guards.build_create(tier) + evm_guards.build_eam(tier) + [Obligation('init.State::map_addresses_to_id[no delegated]', run_map(False), props_map,
+    from . import C19
+    resurrect = [o for o in C19.build(tier) if 'resurrect' in o.name]
+    return evm_guards.build_create(tier) + evm_guards.build_eam(tier) + resurrect + [Obligation('init.State::map_addresses_to_id[no delegated]', run_map(False), props_map,
                        descr='fresh id = next_id, next_id++, stable address newly mapped, nothing else written, invariant preserved', bounds='address map symbolic', max_paths=2000),
             Obligation('init.State::map_addresses_to_id[delegated]', run_map(True), props_map,
                        descr='delegated address: existing id reused or fresh id assigned; stable address must be new', bounds='address map symbolic', max_paths=2000),
